@@ -186,6 +186,13 @@ Example C16_domain_inhabited :
   float_to_fp true 8 (-4) (b64_of_bits 1) = Ok 0.
 Proof. exact domain_inhabited. Qed.
 
+(* the round-trip theorem is not confined to |v| < 2^53: 2^60 is a representable value of the signed
+   64-bit format, is a double, and comes back *)
+Example C16_roundtrip_hypotheses_inhabited :
+  representable true 64 (2 ^ 60) /\ generic_format radix2 (FLT_exp (-1074) 53) (IZR (2 ^ 60)) /\
+  ~ (Z.abs (2 ^ 60) < 2 ^ 53) /\ roundtrip true 64 0 (2 ^ 60) = Ok (2 ^ 60).
+Proof. exact roundtrip_hypotheses_inhabited. Qed.
+
 Example C16_valid_format_inhabited :
   valid_format true 64 0 /\ valid_format false 64 64 /\ valid_format true 8 4.
 Proof. exact valid_format_inhabited. Qed.
